@@ -22,7 +22,10 @@ BUILDS = [
                 '-DMIR_MAX_FUNC_INLINE_GROWTH=400', '-DMIR_MAX_CALLER_SIZE_FOR_ANY_GROWTH_INLINE=4000']),
 ]
 GEN_OPTS = dict(w_call=16, p_blk=0.4, p_forward=0.7, nfuncs=None, p_inline=0.7, p_top_alloca=0.85, p_midret=0.25, p_alloca_after_call=0.6, p_small=0.7,
-                p_narrow_res=0.5)
+                p_narrow_res=0.5,
+                # round 3: callee parameters written by the body (call results in every position, loads, any
+                # insn), bodies that begin with a jump-target label (tools/gen_c01_prog.py param_modes/entry_prologue)
+                p_param_write=0.6, p_entry_label=0.35, p_lean=0.5)
 
 
 def regen():
@@ -92,7 +95,7 @@ def run(chk):
         'tools/tr_c04_shortcuts.py (regex over the shortcut condition of simplify_func in mir.c)',
         'NOT proved: process_inlines as a whole (register renaming, label duplication, cold code), jump threading, '
         'label renumbering: differential run only (inline_simulation not attempted)']
-    n = 300 if quick else 1000
+    n = 600 if quick else 2000
     progs = c04_programs(chk, n)
     total_div = 0
     nwd = 0
